@@ -151,7 +151,7 @@ func TestC07_Components(t *testing.T) {
 		"pages with 1..4 uses of four component files (arguments used in text, expressions and conditions; a page variable that is not passed; default and named top-level slots; one under components/ addressed by '~name'): the same component several times with different arguments and different / missing slot bodies, uses inside @each and @for (arguments and slot bodies from the loop variable, >= 2 passes), inside @if/@else, and inside @insert blocks of a layout; slot bodies with text and {{ }} over page variables. Expected: reference instantiation (arguments evaluated at the place of use, surrounding scope visible, each placeholder replaced by the body passed by that use or nothing). Non-trivial: one component used >= 2 times or a use evaluated in a loop. Distinct by hash of files + data.")
 	defer c.Finish()
 	in := interp()
-	runRapid(t, c, 4000, 15000, func(rt *rapid.T) {
+	runRapid(t, c, 4000, 45000, func(rt *rapid.T) {
 		env := genDataEnv().Draw(rt, "data")
 		u := &useGen{rt: rt, env: env, uses: map[string]int{}}
 		page := u.page(2)
@@ -255,7 +255,7 @@ func TestC07_Errors(t *testing.T) {
 	c := harness.New(t, "C07", "errors",
 		"load-time error classes, each inside an otherwise valid generated page: a slot the component does not declare (named and default), a slot passed twice (named and default), a missing component file (plain and '~' name); NewTemplate must fail and the message must name the component. Non-trivial: all. Distinct by hash.")
 	defer c.Finish()
-	runRapid(t, c, 600, 2500, func(rt *rapid.T) {
+	runRapid(t, c, 600, 7500, func(rt *rapid.T) {
 		env := genDataEnv().Draw(rt, "data")
 		u := &useGen{rt: rt, env: env, uses: map[string]int{}}
 		page := u.page(2)
